@@ -4,6 +4,7 @@ import re
 from common import TRUSTED, ASSUME, configs
 import tl
 import nullrules as N
+import pinned
 import dtree
 import seqrules
 import seq as S
@@ -152,38 +153,38 @@ def linspace_rules(run, F):
     fn = [f for f in F.fns if f.crate == 'tea_core' and f.qpath.endswith('Vec1::full')][0]
     s = N.one_leaf(N.tbl(fn))
     run.ob('GEN.full', fn, 'full', s == 'Vec1::collect_from_trusted(iter::repeat_n(v, len))', fn.loc(), str(s))
-    for nm, want in (('Vec1Create::range', 'Vec1::collect_from_trusted(linspace::range(start.unwrap_or(Zero::zero()), end, '
-                      'step.unwrap_or(One::one())).map(IsNone::from_inner))'),
-                     ('Vec1Create::linspace', 'Vec1::collect_from_trusted(linspace::linspace(start.unwrap_or(Zero::zero()), '
-                      'end, num).map(IsNone::from_inner))')):
+    for nm, want in (('Vec1Create::range', 'Vec1::collect_from_trusted(linspace::range(p0.unwrap_or(Zero::zero()), p1, '
+                      'p2.unwrap_or(One::one())).map(IsNone::from_inner))'),
+                     ('Vec1Create::linspace', 'Vec1::collect_from_trusted(linspace::linspace(p0.unwrap_or(Zero::zero()), '
+                      'p1, p2).map(IsNone::from_inner))')):
         fn = [f for f in F.fns if f.crate == 'tea_core' and f.qpath.endswith(nm)][0]
-        s = N.one_leaf(N.tbl(fn))
+        s = N.one_leaf(pinned.tbl(fn))         # parameters by position
         run.ob('GEN.create', fn, nm, s == want, fn.loc(), str(s))
 
 
 def collectors(run, F):
     want = {
-        'Vec1::collect_from_trusted': 'Vec1::collect_from_iter(iter)',
-        'Vec1::try_collect_from_trusted': 'Vec1::try_collect_from_iter(iter)',
-        'Vec1::collect_with_len': 'Vec1::collect_from_trusted(iter.to_trust(len))',
-        'Vec1::collect_from_opt_iter': 'Vec1::collect_from_iter(iter.map(|a0| a0.unwrap_or(NULL)))',
+        'Vec1::collect_from_trusted': 'Vec1::collect_from_iter(p0)',
+        'Vec1::try_collect_from_trusted': 'Vec1::try_collect_from_iter(p0)',
+        'Vec1::collect_with_len': 'Vec1::collect_from_trusted(p0.to_trust(p1))',
+        'Vec1::collect_from_opt_iter': 'Vec1::collect_from_iter(p0.map(|a0| a0.unwrap_or(NULL)))',
         'Vec1::empty': 'Vec1::collect_from_iter(iter::empty())',
         'Vec1Collect::collect_vec1': 'Vec1::collect_from_iter(self.into_iter())',
         'Vec1Collect::collect_trusted_vec1': 'Vec1::collect_from_trusted(self.into_iter())',
-        'Vec1Collect::collect_vec1_with_len': 'Vec1::collect_with_len(self.into_iter(), len)',
+        'Vec1Collect::collect_vec1_with_len': 'Vec1::collect_with_len(self.into_iter(), p0)',
         'Vec1OptCollect::collect_vec1_opt': 'Vec1::collect_from_opt_iter(self.into_iter())',
         'Vec1TryCollect::try_collect_vec1': 'Vec1::try_collect_from_iter(self.into_iter())',
         'Vec1TryCollect::try_collect_trusted_vec1': 'Vec1::try_collect_from_trusted(self.into_iter())',
         'CollectTrustedToVec::collect_trusted_to_vec': 'self.collect_from_trusted()',
         'TryCollectTrustedToVec::try_collect_trusted_to_vec': 'self.try_collect_from_trusted()',
-        'ToTrustIter>::to_trust': 'TrustIter::new(self.into_iter(), len)',
+        'ToTrustIter>::to_trust': 'TrustIter::new(self.into_iter(), p0)',
     }
     for q, w in want.items():
         fs = [f for f in F.fns if f.crate == 'tea_core' and f.qpath.endswith(q) and f.kind != 'Closure']
         if not fs:
             run.ob('COLL.delegate', 'tea_core', q, False, '', 'function not found')
             continue
-        s = N.one_leaf(N.tbl(fs[0]))
+        s = N.one_leaf(pinned.tbl(fs[0]))      # parameters by position
         run.ob('COLL.delegate', fs[0], q.split('::')[-1] + ' of ' + q.split('::')[0], s == w, fs[0].loc(), str(s))
 
 
